@@ -1,10 +1,10 @@
-// ddscan: developer tool - lists constructs of interest (map ranges, ...).
+// ddscan: developer tool - lists constructs of interest.
 package main
 
 import (
 	"fmt"
-	"go/types"
 	"os"
+	"strings"
 
 	"ddcheck/core"
 
@@ -17,13 +17,34 @@ func main() {
 		fmt.Println(err)
 		os.Exit(2)
 	}
-	reach := p.ReachableFrom(p.EntryPoints()...)
+	c := core.NewCanon(p)
+	fields := []string{".Elements", ".TextBlocks", ".TextElements", ".textNodes", ".TextNodes"}
 	for _, fn := range p.ModFunctions(false) {
 		for _, b := range fn.Blocks {
 			for _, in := range b.Instrs {
-				if rg, ok := in.(*ssa.Range); ok {
-					if _, isMap := rg.X.Type().Underlying().(*types.Map); isMap {
-						fmt.Printf("%s\t%s\treachable=%v\t%s\n", p.Pos(rg.Pos()), core.ShortKey(fn), reach[fn], core.NewCanon(p).Of(rg.X))
+				if st, ok := in.(*ssa.Store); ok {
+					a := c.Of(st.Addr)
+					for _, f := range fields {
+						if strings.HasSuffix(a, f) {
+							fmt.Printf("%s\t%s\t%s = %s\n", p.Pos(st.Pos()), core.ShortKey(fn), a, c.Of(st.Val))
+						}
+					}
+					// element stores into these slices
+					if ia, ok := st.Addr.(*ssa.IndexAddr); ok {
+						x := c.Of(ia.X)
+						for _, f := range fields {
+							if strings.HasSuffix(x, f) {
+								fmt.Printf("%s\t%s\tELEM %s[...] = %s\n", p.Pos(st.Pos()), core.ShortKey(fn), x, c.Of(st.Val))
+							}
+						}
+					}
+				}
+				if call, ok := in.(*ssa.Call); ok {
+					if f := call.Call.StaticCallee(); f != nil && (strings.HasPrefix(f.String(), "sort.") || strings.HasPrefix(f.String(), "slices.")) {
+						fmt.Printf("%s\t%s\tSORT %s\n", p.Pos(call.Pos()), core.ShortKey(fn), c.Of(call))
+					}
+					if b, ok := call.Call.Value.(*ssa.Builtin); ok && b.Name() == "copy" {
+						fmt.Printf("%s\t%s\tCOPY %s\n", p.Pos(call.Pos()), core.ShortKey(fn), c.Of(call))
 					}
 				}
 			}
